@@ -102,17 +102,23 @@ def count_checks(items):
 
 
 def split_json_docs(text):
-    """several pretty-printed JSON documents concatenated -> list"""
+    """JSON documents embedded in console output (each starts with `{` or `[` at the beginning
+    of a line; other text - e.g. the CloudFormation-aware console report - is skipped) -> list"""
     dec = json.JSONDecoder()
-    i, n, docs = 0, len(text), []
+    docs, i, n = [], 0, len(text)
     while i < n:
-        while i < n and text[i].isspace():
-            i += 1
-        if i >= n:
+        if text[i] in "{[" and (i == 0 or text[i - 1] == "\n" or (docs and text[i - 1] in "}]")):
+            try:
+                obj, j = dec.raw_decode(text, i)
+                docs.append(obj)
+                i = j
+                continue
+            except ValueError:
+                pass
+        nl = text.find("\n", i)
+        if nl < 0:
             break
-        obj, j = dec.raw_decode(text, i)
-        docs.append(obj)
-        i = j
+        i = nl + 1
     return docs
 
 
